@@ -139,6 +139,8 @@ def make_worker(case, ctx, name, marker, cls=None, extra_kwargs=None):
         target, args = vtargets.raise_own, ['x', 2]
     elif sc == 'loop_finally':
         target, args = vtargets.loop_finally, [marker, case.get('rounds', 3)]
+    elif sc == 'spin_finally':
+        target, args = vtargets.spin_finally, [marker]
     elif sc == 'persist':
         target, args = vtargets.item_or_raise, None
     elif sc.startswith('raise:'):
@@ -186,17 +188,19 @@ def census(case, ctx, cls=None):
     s0 = 0
     kind = case['kind']
     for (i, f, fn, line, _) in tr:
-        if kind.endswith('thread') and f == 'thread.py' and fn == '_run' and i > 0:
-            src = _line_text('thread', line)
-            if 'try:' in src:
-                s0 = i
-                break
+        if kind.endswith('thread') and f == 'thread.py' and fn == '_run' and '_startup_sync.set()' in _line_text('thread', line):
+            s0 = i + 1
+            break
         if kind.endswith('process') and f == 'process.py' and fn == '_run' and '_init_child' in _line_text('process', line):
             s0 = i
             break
         if kind.endswith('remote') and f == 'remote.py' and fn == '_run_backend' and 'unused_sync' in _line_text('remote', line):
             s0 = i
             break
+    if case['scenario'] == 'spin_finally':
+        # endless target: the landing space is cut 90 events after the target is entered
+        first = next((e[0] for e in tr if e[1] == 'vtargets.py'), len(tr))
+        tr = tr[:first + 90]
     res = {'M': len(tr), 's0': s0, 'trace': tr}
     cache[key] = res
     return res
@@ -309,6 +313,12 @@ def execute(case, ctx, cls=None, extra_kwargs=None, after_create=None):
                 obs['wait_ret'] = 'blocked'
             except BaseException as e:
                 obs['wait_ret'] = 'raised:' + type(e).__name__
+        elif mode == 'census' and case['scenario'] == 'spin_finally':
+            time.sleep(0.4)
+            try:
+                bounded(w.terminate, GUARD, **tkw)
+            except BaseException:
+                pass
         else:
             try:
                 obs['wait_ret'] = bounded(w.wait, GUARD, 10)
